@@ -31,8 +31,8 @@ pub fn property() -> Property {
         assumptions: vec![
             "k <= n (documented precondition of the random initialiser); no NaN/inf inputs; p >= 1".into(),
             "reduced distances recomputed in f64 from the exact element values; a linfa value may deviate by 64 eps (relative, eps of the element type) + 16 min_positive: all terms are non-negative, p <= 4".into(),
-            "an index returned by predict is accepted when its reduced distance is within that tolerance of the minimum; on an exact tie (equal in f64 and in the element type) the lowest index is required, as the strict `<` scan of closest_centroid gives".into(),
-            "trajectory: expected centroid = (sum of assigned points + previous centroid)/(count+1) in f64, tolerance (n+64) eps scale per coordinate; a step in which some point is nearly (not exactly) tied is not judged".into(),
+            "an index returned by predict is accepted when its reduced distance is within that tolerance of the minimum; on a tie ANY minimal index is accepted (the statement does not fix the tie-break)".into(),
+            "trajectory: expected centroid = (sum of assigned points + previous centroid)/(count+1) in f64, tolerance (n+64) eps scale per coordinate; a step in which some point is nearly (not exactly) tied is not judged; exactly tied points (equal in f64 and in the element type) may go to any of their tied centroids: all combinations are tried when <= 4 points are tied (<= 256 combinations), otherwise only the lowest-index and highest-index conventions and a mismatch is counted as exact_tie_step_not_judged".into(),
             "stopping rule modelled by evaluating distance(old,new) in the element type: < tolerance/2 must stop, > 2 tolerance must continue, in between either; tolerance 'never' = 1e-300 (f64) / 1e-38 (f32)".into(),
             "cost monotonicity is asserted for L2 only (theorem for the mean update), allowed rise 4 sqrt(n cost) d + 2 n d^2 + 1e-12 cost with d = (n+64) eps scale sqrt(p)".into(),
             "bounding box slack (2n+8) eps scale (steady-state rounding excursion of a convex combination), box = data, plus the precomputed start when it lies outside".into(),
@@ -41,10 +41,16 @@ pub fn property() -> Property {
             "trusted: ndarray, rand/rand_xoshiro, the harness' naive reference code".into(),
         ],
         subs: vec![
-            prop_sub("trajectory", 12000, 160000, |t: Tier| cases::trajectory_case(t), checks::check_trajectory).chunks(16),
-            prop_sub("restarts", 8000, 100000, |t: Tier| cases::restarts_case(t), checks::check_restarts).chunks(16),
-            prop_sub("assign", 16000, 200000, |t: Tier| cases::assign_case(t), checks::check_assign).chunks(16),
-            prop_sub("large", 32, 200, |t: Tier| cases::large_case(t), checks::check_large).chunks(8),
+            prop_sub("trajectory", 40000, 400000, |t: Tier| cases::trajectory_case(t), checks::check_trajectory)
+                .chunks(16)
+                .require(&["two_or_more_reassigning_steps", "exact_tie_in_assignment", "converged_run_statistics_judged", "stopped_within_budget"]),
+            prop_sub("restarts", 30000, 300000, |t: Tier| cases::restarts_case(t), checks::check_restarts)
+                .chunks(16)
+                .require(&["best_run_is_not_last", "runs_reach_different_centroids", "best_run_converged"]),
+            prop_sub("assign", 60000, 600000, |t: Tier| cases::assign_case(t), checks::check_assign)
+                .chunks(16)
+                .require(&["exact_tie_query", "init_para", "fewer_distinct_points_than_k", "fresh_queries"]),
+            prop_sub("large", 64, 300, |t: Tier| cases::large_case(t), checks::check_large).chunks(8),
         ],
     }
 }
